@@ -186,3 +186,37 @@ func nodeUsesRoot(n *scriptref.Node) bool {
 // operand (its verdict depends on the whole document, so a case holding one
 // cannot be re-rooted at a sub-document when it is shrunk).
 func (f JPFrag) RootFilter() bool { return f.K == "filter" && nodeUsesRoot(f.F) }
+
+// TreeDepth is the nesting depth of a document: 0 for a scalar, 1 for a
+// container of scalars (or an empty one), and so on.
+func TreeDepth(v any) int {
+	d := 0
+	switch t := v.(type) {
+	case []any:
+		d = 1
+		for _, e := range t {
+			if x := 1 + TreeDepth(e); x > d {
+				d = x
+			}
+		}
+	case map[string]any:
+		d = 1
+		for _, e := range t {
+			if x := 1 + TreeDepth(e); x > d {
+				d = x
+			}
+		}
+	}
+	return d
+}
+
+// DeepDocs keeps the documents nested at least min deep.
+func DeepDocs(docs []any, min int) []any {
+	var out []any
+	for _, d := range docs {
+		if TreeDepth(d) >= min {
+			out = append(out, d)
+		}
+	}
+	return out
+}
